@@ -168,7 +168,15 @@ def build(tier="quick", seed=0):
                         if wrote:
                             return False, f"the original record was modified: {wrote}"
                         if not dts:
-                            return (len(out) == 1 and out[0] is rec), "a record without timestamp fields must be yielded as it is"
+                            if len(out) != 1:
+                                return False, f"a record without timestamp fields: {len(out)} records come out"
+                            if out[0] is rec:
+                                return True
+                            same_ = [it.zint(out[0].attrs.get(m)) == it.zint(rec.attrs[m]) if t == "varint" else it.unbase(out[0].attrs.get(m)) == it.unbase(rec.attrs[m]) for t, m in fields]
+                            if any(x_ is False for x_ in same_):
+                                return False, "a record without timestamp fields comes out changed"
+                            zs = [x_ for x_ in same_ if x_ is not True]
+                            return (z3.And(*zs) if zs else True), "a record without timestamp fields comes out changed"  # (the same record or an indistinguishable copy)
                         if len(out) != len(dts):
                             return False, f"{len(dts)} timestamp fields, {len(out)} records"
                         conj = []
@@ -377,7 +385,8 @@ def build(tier="quick", seed=0):
                     if wrote or nm != "c15/rw":
                         return False, f"original modified {wrote} / name {nm}"
                     if not fsel and not ex:
-                        return same, "no projection requested: the record must be passed through"
+                        # no projection requested: the same record or an indistinguishable one
+                        return (same or got_fields == list(base_fields)) and (same or (z3.And(*[it.zint(got_vals[n]) == vals[{"a": 0, "b": 1, "c": 2}[n]] for _, n in base_fields]) if base_fields else True)), "no projection requested: the record comes out changed"
                     if got_fields != want:
                         return False, f"fields={fsel} exclude={ex}: projected fields {got_fields}, expected {want}"
                     idx = {"a": 0, "b": 1, "c": 2}
